@@ -11,7 +11,7 @@ CHECKS = {
    "DESIGN.md §6 C12, §4.3"),
  "C14": ("model_checking",
    "bounded-exhaustive enumeration of segment words × IFS settings against a reference splitter",
-   "Every word of up to 6 (quick) / 7 (thorough) segments over the 8 segment kinds of the statement, under 7 IFS settings and 3 realisations (literal parts, parameter expansions, single quotes), is expanded by the real Expand and compared with a splitter written from the statement; additionally histories on ONE environment: every sequence of ≤ 3 (thorough 4) IFS settings with 5 probe words expanded after each change, and every pair (IFS1, probe) then (IFS2, word ≤ 3 characters over {a space , : é tab}). Complete within those bounds.",
+   "Every word of up to 6 (quick) / 7 (thorough) segments over the 8 segment kinds of the statement, under 11 IFS settings (incl. letters and characters from the upper half of ASCII) and 3 realisations (literal parts, parameter expansions, single quotes), is expanded by the real Expand and compared with a splitter written from the statement; additionally histories on ONE environment: every sequence of ≤ 3 (thorough 4) IFS settings with 5 probe words expanded after each change, and every pair (IFS1, probe) then (IFS2, word ≤ 3 characters over {a space , : é tab}). Complete within those bounds.",
    "Trusts the reference splitter (c14Ref); words are built as AST values with NoGlob set; longer words and other IFS values are outside the bound.",
    "DESIGN.md §6 C14, §4.2"),
  "C11": ("model_checking",
@@ -36,7 +36,7 @@ CHECKS = {
    "DESIGN.md §6 C16, §4.3"),
  "C20": ("model_checking",
    "explicit-state BFS over operation histories of the real ExecEnv against a map model",
-   "Breadth-first search to depth 4 (quick) / 6 (thorough) from 8 initial environments over an alphabet of ≈ 245 Set/Unset/Expand/Eval operations (Eval incl. short-circuit forms whose skipped operand assigns or faults; Expand incl. 30 composite forms ${a op INNER} whose word assigns, fails or does neither); second phase without state merging: every history of ≤ 4 (thorough 5) operations over a reduced alphabet in which the observation is itself an operation on ordinary, special and positional names; every operation is applied in every distinct reachable store state (successor = replay of the shortest history on a fresh instance + 1 operation); after every transition Walk, Get of 17 names, Args, Opts, Aliases and the AST passed in are compared with a plain map model.",
+   "Breadth-first search to depth 4 (quick) / 6 (thorough) from 8 initial environments over an alphabet of ≈ 245 Set/Unset/Expand/Eval operations (Eval incl. short-circuit forms whose skipped operand assigns or faults; Expand incl. 30 composite forms ${a op INNER} whose word assigns, fails or does neither, and 6 words in which the assigning expansion is surrounded by other text); second phase without state merging: every history of ≤ 4 (thorough 5) operations over a reduced alphabet in which the observation is itself an operation on ordinary, special and positional names; every operation is applied in every distinct reachable store state (successor = replay of the shortest history on a fresh instance + 1 operation); after every transition Walk, Get of 17 names, Args, Opts, Aliases and the AST passed in are compared with a plain map model.",
    "Trusts the map model; canonical state drops Export/ReadOnly (no operation of the alphabet observes them); process environment cleared so NewExecEnv starts from {IFS}.",
    "DESIGN.md §6 C20, §2 E3"),
  "C02": ("model_checking",
@@ -46,7 +46,7 @@ CHECKS = {
    "DESIGN.md §6 C02, §4.1"),
  "C03": ("model_checking",
    "bounded-exhaustive enumeration of symbol strings and single-symbol mutations, classified by a reference grammar model",
-   "Every string of the C02 alphabets/bounds that the grammar model rejects (≈ 2·10^7 in the quick tier) must be rejected by the real parser with a parser.Error that carries the caller's name and a position inside the consumed text at the start of a token or construct; plus all single-symbol deletions, insertions, duplications and adjacent swaps of generated well-formed programs, every word of the word menu placed at the name positions (for variable, function name) where the model rejects it, the insertion of a comment together with its newline at every position, and all pairs of 7 here-document symbols (quoted/unquoted delimiter, well-formed/ill-formed body) in 6 arrangements.",
+   "Every string of the C02 alphabets/bounds that the grammar model rejects (≈ 2·10^7 in the quick tier) must be rejected by the real parser with a parser.Error that carries the caller's name and a position inside the consumed text at the start of a token or construct; plus all single-symbol deletions, insertions, duplications and adjacent swaps of generated well-formed programs, every word of the word menu placed at the name positions (for variable, function name) where the model rejects it, the insertion of a comment together with its newline at every position, and all pairs of 8 here-document symbols (quoted/unquoted delimiter, well-formed/ill-formed body) in 6 arrangements.",
    "Trusts gram.go for valid/invalid; which of several possible errors is reported is not compared; strings whose quotes pair up across symbols are skipped.",
    "DESIGN.md §6 C03, §4.1"),
  "C04": ("model_checking",
@@ -56,17 +56,17 @@ CHECKS = {
    "DESIGN.md §6 C04"),
  "C06": ("model_checking",
    "stateless model checking of the implementation: controlled scheduler + DFS over all interleavings of the hooked lexer/parser goroutine operations",
-   "go.sh is built with -tags verif; every synchronisation operation between the parser and its lexer goroutines (token hand-off including both outcomes of an ambiguous select, cancel, here-document queue, nested lexer join, error slots, return of the call) is a point owned by a cooperative scheduler. For every ParseCommands input of ≤ 3 (quick) / 4 (thorough) pieces over a 15-piece alphabet (incl. a numbered here-document whose delimiter never comes), 15 longer inputs (preemption bound ≤ 2), the generator's lists of leaf commands and default-filled compounds with each single-symbol deletion (preemption bound ≤ 1), every input of ≤ 2 (thorough 3) pieces plus 14 nested-substitution inputs with the reader failing from / once at every rune index, and every Eval input of ≤ 4 / 5 tokens over a 12-token alphabet plus 15 longer ones, ALL schedules are enumerated (≈ 7·10^4 executions, 8·10^5 transitions in the quick tier): one result per input, no deadlock, nothing alive or active after the return. Schedules are replayed for determinism; a free-running pass (GOMAXPROCS 1/2/16) must only produce explored results, and the same bodies run under the race detector, which also runs 484 ordered pairs of calls concurrently (results equal to the solo results; shared package-level state shows as a race).",
+   "go.sh is built with -tags verif; every synchronisation operation between the parser and its lexer goroutines (token hand-off including both outcomes of an ambiguous select, cancel, here-document queue, nested lexer join, error slots, return of the call) is a point owned by a cooperative scheduler. For every ParseCommands input of ≤ 3 (quick) / 4 (thorough) pieces over a 15-piece alphabet (incl. a numbered here-document whose delimiter never comes), 15 longer inputs (preemption bound ≤ 2), the generator's lists of leaf commands and default-filled compounds with each single-symbol deletion (preemption bound ≤ 1), every input of ≤ 2 (thorough 3) pieces plus 14 nested-substitution inputs with the reader failing from / once at every rune index, and every Eval input of ≤ 4 / 5 tokens over a 12-token alphabet plus 23 longer ones, ALL schedules are enumerated (≈ 7·10^4 executions, 8·10^5 transitions in the quick tier): one result per input, no deadlock, nothing alive or active after the return. Schedules are replayed for determinism; a free-running pass (GOMAXPROCS 1/2/16) must only produce explored results, and the same bodies run under the race detector, which also runs 484 ordered pairs of calls concurrently (results equal to the solo results; shared package-level state shows as a race).",
    "The controller owns the hooked operations only: unhooked unsynchronised accesses and memory-model effects are seen by the supplementary -race pass alone; executions per input are capped (20 000 / 200 000).",
    "DESIGN.md §6 C06, §2 E2, §3"),
  "C07": ("model_checking",
    "explicit-state search over command streams (state = reader offset, transition = one ParseCommands call)",
-   "Every stream that concatenates ≤ 3 (quick) / 4 (thorough) commands from a 71-entry menu (single-line, multi-line compound, here-documents in every position incl. <<- and quoted delimiters, trailing comments, line continuations, blank lines, multi-line quotes/substitutions), each also with the last command lacking its final newline, and every generator derivation (D0, D1, DH, DC, word menu; two layouts) as first command followed by each of 5 continuations, is read by successive ParseCommands calls from a strings.Reader and a custom RuneScanner; after every call the offset must be the (constructed) end of that command and the result must equal the result of parsing that command's text alone; blank lines give empty results.",
+   "Every stream that concatenates ≤ 3 (quick) / 4 (thorough) commands from a 75-entry menu (single-line, multi-line compound, here-documents in every position incl. <<- and quoted delimiters, trailing comments, line continuations, blank lines, multi-line quotes/substitutions), each also with the last command lacking its final newline, and every generator derivation (D0, D1, DH, DC, word menu; two layouts) as first command followed by each of 5 continuations, is read by successive ParseCommands calls from a strings.Reader and a custom RuneScanner; after every call the offset must be the (constructed) end of that command and the result must equal the result of parsing that command's text alone; blank lines give empty results.",
    "Command boundaries are known by construction; comment-only lines are excluded (pinned by go.sh's own tests); streams beyond the menu are not explored.",
    "DESIGN.md §6 C07, §2 E3"),
  "C08": ("model_checking",
    "stateless model checking of the implementation (controlled scheduler + DFS) over a bounded-exhaustive space of here-document programs",
-   "42 host templates with 1-3 here-document sites (simple command, pipes, lists, every compound form, function bodies, compound redirections, inside $( ) and backquotes, before && / | + newline, numbered, several on one or on different lines) × {<<, <<- with 0-3 tabs before the delimiter line} × 4 delimiter quotings × bodies from a 12-line menu (empty lines, delimiter look-alikes, tab-indented lines, $v, $(c), `c`, backslashes): ≈ 5·10^4 programs in the quick tier, each run under ALL schedules of the lexer/parser pair (one site) or all schedules with ≤ 1 preemption (more sites, which contains both extreme schedules). Per redirection, in operator order: the printed body is byte-identical to the body written, Delim is the delimiter line, the body is split into expansions iff no part of the delimiter was quoted; the same under every schedule; no deadlock on the here-document queue. Second phase: every generator sentence that carries a here-document (D0, D1, DH; thorough D2, DC) in one-line and multi-line layout under all schedules with ≤ 1 preemption, judged against the grammar model's AST.",
+   "42 host templates with 1-3 here-document sites (simple command, pipes, lists, every compound form, function bodies, compound redirections, inside $( ) and backquotes, before && / | + newline, numbered, several on one or on different lines) × {<<, <<- with 0-3 tabs before the delimiter line} × 4 delimiter quotings × bodies from a 16-line menu (empty lines, delimiter look-alikes, tab-indented lines, $v, $(c), `c`, backslashes, lines ending in the delimiter text after an expansion): ≈ 5·10^4 programs in the quick tier, each run under ALL schedules of the lexer/parser pair (one site) or all schedules with ≤ 1 preemption (more sites, which contains both extreme schedules). Per redirection, in operator order: the printed body is byte-identical to the body written, Delim is the delimiter line, the body is split into expansions iff no part of the delimiter was quoted; the same under every schedule; no deadlock on the here-document queue. Second phase: every generator sentence that carries a here-document (D0, D1, DH; thorough D2, DC) in one-line and multi-line layout under all schedules with ≤ 1 preemption, judged against the grammar model's AST.",
    "Backslash-newline inside bodies is outside the alphabet; scheduler assumptions as for C06.",
    "DESIGN.md §6 C08, §2 E2"),
  "C09": ("model_checking",
@@ -81,12 +81,12 @@ CHECKS = {
    "DESIGN.md §6 C10, §2 E4"),
  "C17": ("model_checking",
    "bounded-exhaustive enumeration of alias tables × symbol strings against a reference replacement",
-   "Every alias table with ≤ 2 entries (thorough: ≤ 3) over 3 names and a 23-value menu (chains, cycles, self reference, trailing blanks, operators, reserved words, assignments, redirections, quoted names, values holding two commands that are aliases, values containing $( ), backquote, $(( )) and ${ } expansions) plus 8 fixed three-entry chains and 140 three-entry tables whose outer value holds several commands that are aliases × every string of ≤ 3 (thorough: ≤ 4) symbols over a 13-symbol alphabet: the reference model performs the textual replacement on the symbol string (command-name positions from the grammar model, recursion guard, trailing-blank rule, cross-checked against bash and dash), the unfolded text is parsed by the real parser without aliases and must give the same position-free AST; every run terminates. Also: command substitutions in the source ($( ), backquotes, inside double quotes and ${v:-…}) holding every command list of ≤ 2 symbols over {x y a ; | 'x'} and 5 compound forms, for every table of ≤ 2 entries; and, at text level, one alias whose value is every string of ≤ 3 (thorough 4) characters over 17 significant characters × 6 continuations of the source, compared with the parse of the text in which the word is replaced.",
+   "Every alias table with ≤ 2 entries (thorough: ≤ 3) over 3 names and a 25-value menu (chains, cycles, self reference, trailing blanks, operators, reserved words, assignments, redirections, quoted names, values holding two commands that are aliases, values containing $( ), backquote, $(( )) and ${ } expansions) plus 8 fixed three-entry chains and 140 three-entry tables whose outer value holds several commands that are aliases × every string of ≤ 3 (thorough: ≤ 4) symbols over a 13-symbol alphabet: the reference model performs the textual replacement on the symbol string (command-name positions from the grammar model, recursion guard, trailing-blank rule, cross-checked against bash and dash), the unfolded text is parsed by the real parser without aliases and must give the same position-free AST; every run terminates. Also: command substitutions in the source ($( ), backquotes, inside double quotes and ${v:-…}) holding every command list of ≤ 2 symbols over {x y a ; | 'x'} and 5 compound forms, for every table of ≤ 2 entries; and, at text level, one alias whose value is every string of ≤ 3 (thorough 4) characters over 19 significant characters × 6 continuations of the source, compared with the parse of the text in which the word is replaced.",
    "Only the substitution is modelled, the unfolded text goes through the real parser; alias values with newlines are covered for termination only (C01).",
    "DESIGN.md §6 C17"),
  "C01": ("model_checking",
    "bounded-exhaustive enumeration of sources × source kinds × alias tables × GODEBUG settings in crash-isolated worker processes",
-   "Every symbol string of the tier's alphabets/bounds and every character string of ≤ 5 (quick) / 6 (thorough) characters over the 14 significant shell characters is parsed by ParseCommands and ParseCommand from a string, a []byte, a one-byte io.Reader, a bufio.Reader and a custom RuneScanner, the shorter ones also under 7 adversarial alias tables, plus every alias value of ≤ 3 (thorough 4) characters over 17 significant characters in 3 tables × 7 sources, all under GODEBUG=panicnil=0 and =1 (≈ 5·10^7 calls in the quick tier). Each case runs in a GOMAXPROCS=1 worker subprocess that announces the case first, so a crash from a background goroutine, the runtime's deadlock abort or a stalled worker is attributed to it; the result must be commands and/or an error.",
+   "Every symbol string of the tier's alphabets/bounds and every character string of ≤ 5 (quick) / 6 (thorough) characters over the 14 significant shell characters is parsed by ParseCommands and ParseCommand from a string, a []byte, a one-byte io.Reader, a bufio.Reader and a custom RuneScanner, the shorter ones also under 7 adversarial alias tables, plus 32 constructs repeated or nested n = 1…24 (thorough 64) times, plus every alias value of ≤ 3 (thorough 4) characters over 17 significant characters in 3 tables × 7 sources, all under GODEBUG=panicnil=0 and =1 (≈ 5·10^7 calls in the quick tier). Each case runs in a GOMAXPROCS=1 worker subprocess that announces the case first, so a crash from a background goroutine, the runtime's deadlock abort or a stalled worker is attributed to it; the result must be commands and/or an error.",
    "Free-running: one OS-chosen schedule per case (all schedules are C06's subject); a hang is detected by the Go runtime's deadlock detector or a 120 s no-progress watchdog; unbounded random programs are not explored.",
    "DESIGN.md §6 C01"),
  "C05": ("model_checking",
@@ -96,7 +96,7 @@ CHECKS = {
    "DESIGN.md §6 C05"),
  "C18": ("model_checking",
    "bounded-exhaustive enumeration of programs × 256 configurations (idempotence, purity) and of all single write-fault positions",
-   "For the programs of C05 under 128 (quick) / all 256 Configs: printing the re-parsed output gives identical bytes, two prints of one tree are equal, and a reflection dump of every field of the tree (positions, Sep/SepPos) is identical before and after Fprint. Writer faults: for every program and 3 Configs a writer that accepts k bytes and then fails, for every k below the output length (and around bufio's 4096-byte buffer), must make Fprint return a non-nil error, without panic and with the tree unchanged.",
+   "For the programs of C05 under 128 (quick) / all 256 Configs: printing the re-parsed output gives identical bytes, two prints of one tree are equal, and a reflection dump of every field of the tree (positions, Sep/SepPos) is identical before and after Fprint. Writer faults: for every program and 3 Configs a writer that accepts k bytes and then fails, for every k below the output length, and three outputs of 9-14 KB (one line, 700 lines, 400 here-documents) × 11 fault positions around bufio's buffer boundaries, must make Fprint return a non-nil error, without panic and with the tree unchanged.",
    "The deep comparison runs after every 4th (quick: 32nd) configuration and after the last; outputs that do not re-parse are C05's subject.",
    "DESIGN.md §6 C18"),
  "C19": ("model_checking",
